@@ -34,6 +34,9 @@ func (a *Arguments) IsSet(argumentIndex int) bool {
 	}
 
 	if a.pipedVal != nil && !a.args.HasPipeSlot {
+		if argumentIndex == 0 && !notNil(*a.pipedVal) {
+			return false // a piped nil is as unset as a nil argument
+		}
 		if argumentIndex == 0 {
 			return true
 		}
@@ -46,7 +49,7 @@ func (a *Arguments) IsSet(argumentIndex int) bool {
 		e := a.args.Exprs[argumentIndex]
 		switch e.Type() {
 		case NodeUnderscore:
-			return a.pipedVal != nil
+			return a.pipedVal != nil && notNil(*a.pipedVal)
 		default:
 			return a.runtime.isSet(e)
 		}
